@@ -103,6 +103,22 @@ theorem double_succ_mod (m P : Nat) (hP : 0 < P) : (2 * m + 1) % (2 * P) = 2 * (
   have : 2 * P * (m / P) = 2 * (P * (m / P)) := by grind
   omega
 
+/-- final packing of `roundMag`: exponent field, mantissa, overflow to infinity -/
+def pack (fe : Int) (q : Nat) : Nat :=
+  if (fe + 149).toNat * 8388608 + q ≥ 2139095040 then 2139095040 else (fe + 149).toNat * 8388608 + q
+
+/-- round-to-nearest-even of `m / 2^s` -/
+def rneShift (m s : Nat) : Nat :=
+  if m % 2 ^ s > 2 ^ (s - 1) || (m % 2 ^ s == 2 ^ (s - 1) && m / 2 ^ s % 2 == 1) then m / 2 ^ s + 1
+  else m / 2 ^ s
+
+theorem roundMag_shift (m : Nat) (e fe : Int)
+    (hfe : fe = if e + (bitLen m : Int) - 24 < -149 then -149 else e + (bitLen m : Int) - 24)
+    (h : e < fe) : roundMag .f32 m e = pack fe (rneShift m (fe - e).toNat) := by
+  rw [roundMag_f32 m e fe hfe]
+  simp only [if_neg (show ¬ fe ≤ e by omega)]
+  rfl
+
 /-- `roundPack` on a truncated quotient of at least 26 bits plus sticky flag is the rounding of the
     exact rational -/
 theorem roundPack_div (neg : Bool) (T d : Nat) (e : Int) (hd : 0 < d) (hb : 2 ^ 25 ≤ T / d) :
@@ -127,11 +143,9 @@ theorem roundPack_div (neg : Bool) (T d : Nat) (e : Int) (hd : 0 < d) (hb : 2 ^ 
   rw [hTT] at hdec
   -- unfold the right-hand side
   have hrq : rq T d e =
-      (let q := if T > d * 2 ^ (s' + 1) * (2 * (T / d / 2 ^ (s' + 2)) + 1) ∨
+      pack fe (if T > d * 2 ^ (s' + 1) * (2 * (T / d / 2 ^ (s' + 2)) + 1) ∨
           (T = d * 2 ^ (s' + 1) * (2 * (T / d / 2 ^ (s' + 2)) + 1) ∧ T / d / 2 ^ (s' + 2) % 2 = 1)
-        then T / d / 2 ^ (s' + 2) + 1 else T / d / 2 ^ (s' + 2)
-       if (fe + 149).toNat * 8388608 + q ≥ 2139095040 then 2139095040
-       else (fe + 149).toNat * 8388608 + q) := by
+        then T / d / 2 ^ (s' + 2) + 1 else T / d / 2 ^ (s' + 2)) := by
     unfold rq
     simp only [hfe, hs', hq0]
     rfl
@@ -139,12 +153,12 @@ theorem roundPack_div (neg : Bool) (T d : Nat) (e : Int) (hd : 0 < d) (hb : 2 ^ 
   by_cases hst : T % d = 0
   · -- exact quotient: no sticky bit
     have hb' : (T % d != 0) = false := by simp [hst]
-    rw [hb', roundPack_pos _ _ _ _ hm0, roundMag_f32 (T / d) e fe hfe.symm]
-    rw [if_neg (by omega), hs']
+    rw [hb', roundPack_pos _ _ _ _ hm0, roundMag_shift (T / d) e fe hfe.symm (by omega), hs']
+    congr 2
+    unfold rneShift
     have hs1 : s' + 2 - 1 = s' + 1 := by omega
     rw [hs1]
-    congr 2
-    apply if_congr _ rfl rfl
+    apply ite_congr (propext _) (fun _ => rfl) (fun _ => rfl)
     simp only [Bool.or_eq_true, Bool.and_eq_true, decide_eq_true_eq, beq_iff_eq]
     rw [hdec.1, hdec.2]
     constructor
@@ -164,14 +178,14 @@ theorem roundPack_div (neg : Bool) (T d : Nat) (e : Int) (hd : 0 < d) (hb : 2 ^ 
     have hfe' : fe = if e - 1 + (bitLen (2 * (T / d) + 1) : Int) - 24 < -149 then -149
         else e - 1 + (bitLen (2 * (T / d) + 1) : Int) - 24 := by
       rw [hbl, ← hfe]; split <;> split <;> omega
-    rw [hb', hrp, roundMag_f32 _ (e - 1) fe hfe']
     have hs3 : (fe - (e - 1)).toNat = s' + 3 := by omega
     have hP3 : (2 : Nat) ^ (s' + 3) = 2 * 2 ^ (s' + 2) := by rw [Nat.pow_succ]; omega
-    rw [if_neg (by omega), hs3]
+    rw [hb', hrp, roundMag_shift _ (e - 1) fe hfe' (by omega), hs3]
+    congr 2
+    unfold rneShift
     have hs2 : s' + 3 - 1 = s' + 2 := by omega
     rw [hs2, hP3, double_succ_div _ _ (Nat.two_pow_pos _), double_succ_mod _ _ (Nat.two_pow_pos _)]
-    congr 2
-    apply if_congr _ rfl rfl
+    apply ite_congr (propext _) (fun _ => rfl) (fun _ => rfl)
     simp only [Bool.or_eq_true, Bool.and_eq_true, decide_eq_true_eq, beq_iff_eq]
     rw [hdec.1, hdec.2]
     constructor
